@@ -58,7 +58,9 @@ def packer(folder, mode, perpack, clean=True):
         from disk_objectstore import CompressMode, Container  # pylint: disable=import-outside-toplevel
         cont = Container(folder)
         try:
-            cont.pack_all_loose(compress=CompressMode[mode], clean_loose_per_pack=perpack)
+            # a trailing '!' selects the non-default do_fsync=False
+            cont.pack_all_loose(compress=CompressMode[mode.rstrip('!')], clean_loose_per_pack=perpack,
+                                do_fsync=not mode.endswith('!'))
             s.log(e='packed')
             if clean:
                 cont.clean_storage()
@@ -156,7 +158,7 @@ X_KINDS = {
     'r-single-pinned': lambda f: reader(f, 'single', ['k2', 'k8'], pin=True),
 }
 PACKERS = {'YES-pp1': ('YES', True), 'NO-pp0': ('NO', False), 'YES-pp0': ('YES', False), 'NO-pp1': ('NO', True),
-           'AUTO-pp1': ('AUTO', True), 'AUTO-pp0': ('AUTO', False)}
+           'AUTO-pp1': ('AUTO', True), 'AUTO-pp0': ('AUTO', False), 'NO-pp1-nofsync': ('NO!', True), 'YES-pp0-nofsync': ('YES!', False)}
 
 
 def final_observation(folder):
@@ -349,7 +351,7 @@ def check_C04(report: common.Report):
         jobs = []
         xs = list(X_KINDS)
         for idx, x in enumerate(xs):
-            jobs.append((['YES-pp1', 'NO-pp0', 'YES-pp0', 'NO-pp1'][idx % 4], x, 'AB', 30, seed))
+            jobs.append((['YES-pp1', 'NO-pp0', 'YES-pp0', 'NO-pp1', 'NO-pp1-nofsync'][idx % 5], x, 'AB', 30, seed))
             jobs.append((['NO-pp1', 'YES-pp0'][idx % 2], x, 'A' if idx % 2 else 'B', 20, seed))
     results = common.pmap(pair_job, jobs)
     sequences = tlc_sequences(report, 300 if thorough else 60)
